@@ -260,8 +260,8 @@ fn graph_hash(g: &GraphSpec) -> u64 {
     let mut h = Fnv::new();
     h.usize(g.fns.len());
     for f in &g.fns {
-        h.u8(f.reads);
-        h.u8(f.writes);
+        h.u64(f.reads as u64);
+        h.u64(f.writes as u64);
     }
     for e in &g.calls {
         h.usize(e.from);
@@ -311,7 +311,7 @@ fn minimise(gs: &GraphSpec, class: &str) -> GraphSpec {
         }
         for i in 0..g.fns.len() {
             for k in 0..crate::spec::N_TYPES {
-                let bit = 1u8 << k;
+                let bit = 1u16 << k;
                 if g.fns[i].reads & bit != 0 {
                     let mut c = g.clone();
                     c.fns[i].reads &= !bit;
